@@ -8,6 +8,7 @@ import LocustModel.Wire.XorFloat
     rows <clock bits list> <row>…      row = `()` | name=cell,name=cell…   cell = _ | i<int> | f<16 hex> | x<hex>
     wire <len> <name>=<rep>…           rep = E | D:<bits,…> | S:<i>@<bits>,… | I:<ints> | SI:<i>@<int>,… | T:<x…,…> | M:<cells>
     xor <max_regret> <mantissa|_> <16-hex bit patterns>
+    client <request sizes> <x<hex table>|<row>>…   request sizes = rows per observed request (timing, an input)
   Output:  <model> TAB <spec: OK | BAD … | SKIP> [TAB <known finding id>]
 -/
 namespace LM.DrvC16
@@ -46,17 +47,10 @@ def intsSpec (xs : List Int) (impl : String) : String :=
   | [_, dec] => if dec = "ok:" ++ showInts xs then "OK" else "BAD decoded differs from the values sent: " ++ dec.take 60
   | _ => "BAD no decoded column: " ++ impl.take 60
 
-def intsKnown (xs : List Int) : String :=
-  if diffOverflows xs then "api-delta-i64-overflow"
-  else if rangeMulOverflows xs then "api-range-decode-mul-overflow"
-  else ""
-
 def stepInts (arg impl : String) : String :=
   match parseList parseInt? arg with
   | none => "bad-op\tbad-op"
-  | some xs =>
-    let k := intsKnown xs
-    intsModel xs ++ "\t" ++ intsSpec xs impl ++ (if k = "" then "" else "\t" ++ k)
+  | some xs => intsModel xs ++ "\t" ++ intsSpec xs impl
 end Ints
 
 
@@ -226,6 +220,65 @@ def stepWire (len : String) (colToks : List String) (impl : String) : String :=
       | some exp => judge len exp impl
     model ++ "\t" ++ spec
   | _, _ => "bad-op\tbad-op"
+/-! ### client session -/
+
+def parseEvent? (s : String) : Option Event := do
+  let (t, r) ← splitFirst s "|"
+  let row ← parseRow? r
+  pure (t, row, 0)
+
+/-- `k₁` logs, tick, `k₂` logs, tick, … (the split observed on the implementation side). -/
+def stepsOf : List Nat → List Event → List Step
+  | [], evs => evs.map .log
+  | k :: ks, evs => (evs.take k).map Step.log ++ [.tick] ++ stepsOf ks (evs.drop k)
+
+def showRequest (b : Buffer) : String :=
+  " ;; ".intercalate ((sortByName b).map fun (n, t) => n ++ ":" ++ showServer t.len t.cols)
+
+def showRequests (ms : List Buffer) : String :=
+  if ms.isEmpty then "none" else " ## ".intercalate (ms.map showRequest)
+
+def clientModel (sizes : List Nat) (evs : List Event) : String :=
+  match session [] (stepsOf sizes evs) with
+  | .error _ => "panic-log"
+  | .ok (msgs, fin) => showRequests (if fin.isEmpty then msgs else msgs ++ [fin])
+
+/-- Specification of one request against the batch of events it must carry (`C16_client_message`). -/
+def judgeRequest (batch : List Event) (impl : String) : String :=
+  let tnames := (batch.map (·.1)).eraseDups
+  let tabs := if impl = "" then [] else impl.splitOn " ;; "
+  match tabs.mapM (fun t => splitFirst t ":") with
+  | none => "BAD unparsable request"
+  | some tabs =>
+    if tabs.map (·.1) ≠ (sortByName (tnames.map fun n => (n, ()))).map (·.1) then
+      "BAD tables " ++ " ".intercalate (tabs.map (·.1))
+    else
+      let verdicts := tabs.map fun (tn, dump) =>
+        let rows := (batch.filter fun e => e.1 == tn).map fun e => (e.2.1, e.2.2)
+        rowsSpec rows dump
+      match verdicts.find? (fun v => v.startsWith "BAD") with
+      | some v => v
+      | none => if verdicts.any (fun v => v.startsWith "SKIP") then "SKIP unsupported column in a batch" else "OK"
+
+def clientSpec (sizes : List Nat) (evs : List Event) (impl : String) : String :=
+  if sizes.foldl (· + ·) 0 ≠ evs.length then s!"BAD {sizes.foldl (· + ·) 0} rows arrived, {evs.length} were logged"
+  else if sizes.any (· == 0) then "BAD an empty request was sent"
+  else
+    let reqs := if impl = "none" then [] else impl.splitOn " ## "
+    if reqs.length ≠ sizes.length then "BAD request count"
+    else
+      let rec go : List Nat → List Event → List String → String
+        | k :: ks, evs, r :: rs =>
+          let v := judgeRequest (evs.take k) r
+          if v = "OK" then go ks (evs.drop k) rs else v
+        | _, _, _ => "OK"
+      go sizes evs reqs
+
+def stepClient (sizes : String) (evToks : List String) (impl : String) : String :=
+  let evToks := if evToks = ["[]"] then [] else evToks
+  match parseList parseNat? sizes, evToks.mapM parseEvent? with
+  | some sizes, some evs => clientModel sizes evs ++ "\t" ++ clientSpec sizes evs impl
+  | _, _ => "bad-op\tbad-op"
 end EB
 
 /-! ### xor float stream -/
@@ -277,6 +330,7 @@ def step (line : String) : String :=
   | ["ints", arg] => stepInts arg impl
   | "rows" :: clock :: rows => stepRows clock rows impl
   | "wire" :: len :: cols => stepWire len cols impl
+  | "client" :: sizes :: evs => stepClient sizes evs impl
   | ["xor", r, m, vals] => stepXor r m vals impl
   | _ => "bad-op\tbad-op"
 
